@@ -461,6 +461,18 @@ func ruleC10Callback(c *Ctx) {
 			case *ssa.Call:
 				// handed to the document resolver, which dereferences it
 				deref = x.Call.StaticCallee() == m.docFn
+				// ... or to a helper that reads or writes its fields
+				if callee := x.Call.StaticCallee(); callee != nil && !deref && c.P.InPkg(callee) {
+					for k, a := range x.Call.Args {
+						if a == res && k < len(callee.Params) && callee.Params[k].Referrers() != nil {
+							for _, pr := range *callee.Params[k].Referrers() {
+								if _, ok := pr.(*ssa.FieldAddr); ok {
+									deref = true
+								}
+							}
+						}
+					}
+				}
 			}
 			if !deref {
 				continue
